@@ -670,12 +670,6 @@ class KnownValue(Value):
             return f"function {get_fully_qualified_name(self.val)!r}"
         elif isinstance(self.val, type):
             return f"type {get_fully_qualified_name(self.val)!r}"
-        elif isinstance(self.val, (set, frozenset)) and self.val:
-            # repr() of a set lists the elements in hash order, which differs between runs
-            elements = ", ".join(map(repr, stable_set_order(self.val)))
-            if isinstance(self.val, frozenset):
-                return f"Literal[frozenset({{{elements}}})]"
-            return f"Literal[{{{elements}}}]"
         else:
             return f"Literal[{_literal_repr(self.val)}]"
 
@@ -695,6 +689,10 @@ class KnownValue(Value):
 
 
 def _literal_repr(obj: object) -> str:
+    if isinstance(obj, (set, frozenset)) and obj:
+        # repr() of a set lists the elements in hash order, which differs between runs
+        elements = ", ".join(map(_literal_repr, stable_set_order(obj)))
+        return f"frozenset({{{elements}}})" if isinstance(obj, frozenset) else f"{{{elements}}}"
     try:
         return repr(obj)
     except ValueError:
